@@ -153,6 +153,14 @@ theorem lines_partition_text (s : LStr) :
     ∀ i, i < (uniLines s).length → ((uniLines s).take i).flatten.count '\n' = i :=
   ⟨uniLines_flatten s, uniLines_shape s, uniLines_count s⟩
 
+/-- a text that ends with a line end — as every source file an editor saves does — has exactly as many lines as it has line ends of any style: the line
+numbers B613 reports run over the same lines the parser numbers -/
+theorem line_count_is_line_end_count (s : LStr) (h : (translate s).getLast? = some '\n') :
+    (uniLines s).length = (translate s).count '\n' :=
+  uniLines_length_of_ends_nl s h
+
+example : (translate "a\r\nb\rc\n".toList).getLast? = some '\n' ∧ (uniLines "a\r\nb\rc\n".toList).length = 3 := by decide
+
 /-- **a listed character anywhere in the decoded text is reported**, whatever the line ends of the file are -/
 theorem bidi_anywhere_in_text_reported (table : List Char) (e : Env) (s : LStr) (ch : Char)
     (hch : ch ∈ table) (hs : ch ∈ s) (h1 : ch ≠ '\r') (h2 : ch ≠ '\n') :
